@@ -195,7 +195,7 @@ def c_slice_get(eng, st, fr, f, args, site):
 
 
 @contract(r"^(std|alloc)::slice::<impl \[T\]>::to_vec$|^<(std|alloc)::vec::Vec<T> as (std|core)::convert::From<&\[T\]>>::from$|^(std|alloc)::str::<impl (std|alloc)::borrow::ToOwned for str>::to_owned$|^<str as (std|alloc)::string::ToString>::to_string$"
-          r"|^<(std|alloc)::string::String as (std|core)::clone::Clone>::clone$|^<(std|alloc)::vec::Vec<T, A> as (std|core)::clone::Clone>::clone$|^<T as (std|alloc)::borrow::ToOwned>::to_owned$|^<T as (std|alloc)::string::ToString>::to_string$|^(std|alloc)::slice::<impl (std|alloc)::borrow::ToOwned for \[T\]>::to_owned$|^<(std|alloc)::string::String as (std|core)::convert::From<&str>>::from$")
+          r"|^<(std|alloc)::string::String as (std|core)::clone::Clone>::clone$|^<(std|alloc)::vec::Vec<T, A> as (std|core)::clone::Clone>::clone$|^<T as (std|alloc)::borrow::ToOwned>::to_owned$|^<T as (std|alloc)::string::ToString>::to_string$|^(std|alloc)::string::ToString::to_string$|^(std|alloc)::borrow::ToOwned::to_owned$|^(std|alloc)::slice::<impl (std|alloc)::borrow::ToOwned for \[T\]>::to_owned$|^<(std|alloc)::string::String as (std|core)::convert::From<&str>>::from$")
 def c_to_owned(eng, st, fr, f, args, site):
     rt = ret_ty(eng, site)
     vw = view(eng, st, args[0])
@@ -203,11 +203,20 @@ def c_to_owned(eng, st, fr, f, args, site):
         return None
     kind = eng.M.container_kind(rt)
     if kind is None:
-        return None
+        # applied as a function value by a higher-order contract (Option::map(str::to_string)): the call site's
+        # type is the combinator's, take the result type from the method itself
+        if f["path"].endswith("to_string") or (vw.get("slice") is not None and vw["elem"] is None and "str" in (f.get("s") or f["path"])):
+            rt = eng.T.by_string("std::string::String") or eng.T.by_string("alloc::string::String")
+            kind = "string" if rt is not None else None
+        if kind is None:
+            return None
     segs = None
     c = vw["cont"] or getattr(eng, "cont_by_id", {}).get(vw["base"])
     if c is not None and c.segs is not None and vw["off"] == Lin.const(0) and vw["len"] == c.len:
         segs = c.segs
+    elif vw.get("arr") is not None:
+        from engine.contracts_bytes import slice_segments
+        segs = slice_segments(eng, st, vw)
     elif not isinstance(vw["base"], tuple):
         segs = (("bytes", vw["base"], vw["off"], vw["len"]),)
     nc = new_cont(eng, kind, vw["len"], vw["elem"], segs, rt, hint="copy(%s)" % _bn(vw["base"]))
